@@ -95,7 +95,7 @@ def dr_expinv (a : Vec α 3) : Mat α 3 3 :=
 def d2rExpCoef (wz : α) : α × α × α × α :=
   let wz2 := wz * wz
   if wz2 < Scalar.eps2 then
-    (nat 1 / nat 2 - wz2 / nat 24, nat 1 / nat 6 - wz2 / nat 120, -wz / nat 48, -wz / nat 60)
+    (nat 1 / nat 2 - wz2 / nat 24, nat 1 / nat 6 - wz2 / nat 120, -wz / nat 12, -wz / nat 60)
   else
     let sTh := Scalar.sin wz
     let cTh := Scalar.cos wz
